@@ -1,13 +1,13 @@
 SPECIFICATION ISpec
 CONSTANTS
   NProc = 2
-  PQs <- PQsA
-  Atomic = FALSE
-  MaxTakes = 5
-  MaxAdv = 3
-  Align = FALSE
-  IPhases = {0}
+  PQs <- PQsB
+  Atomic = TRUE
+  MaxTakes = 3
+  MaxAdv = 2
+  Align = TRUE
+  IPhases = {0, 1400}
   FreezeWindow = FALSE
-  MaxFaults = 2
+  MaxFaults = 0
 INVARIANTS PTypeOK PCanonical Conforms CounterIsTheCount
 CHECK_DEADLOCK FALSE
